@@ -1243,6 +1243,11 @@ class Channel(ClosingContextManager):
     def _event_pending(self):
         self.event.clear()
         self.event_ready = False
+        if self.closed:
+            # The channel was closed (e.g. the connection ended) after the
+            # caller checked that it is open: the wake-up that came with it
+            # has just been wiped out, and no answer will ever arrive.
+            self.event.set()
 
     def _wait_for_event(self):
         self.event.wait()
